@@ -26,6 +26,10 @@ CHECKS = {
          "TLC maps every 2D probe exactly onto the section (rational arithmetic on Pythagorean directions), checks that the probes stay away from straight feature boundaries, and every section x position x depth x property list is replayed: the 2D reply must equal the 3D reply at the mapped point block by block, velocities as the specified projection, and a world without cross section must refuse.",
          "36 sections (origins x 6 directions x Cartesian/spherical), 45 property lists; tolerance 1e-9 because the code's own mapping rounds; " + NOTE,
          "TLA+/TLC (CrossSection.tla) + replay comparing 2D and 3D replies"),
+ "C11": ("model_checking",
+         "Surface.tla specifies the nodal values of a depth surface (last entry naming a coordinate wins, point-less entries name every corner) and transcribes the merge mechanism with its approx-based same-point test; TLC checks that the mechanism yields exactly one node per coordinate with the specified value for every configuration, and each configuration is replayed: the depth actually used is observed 1 m above / below the predicted depth at every nodal point and inside the polygon (exact for affine data, min/max bounds otherwise).",
+         "3 polygons x listed-corner subsets x 0-2 interior points x affine/bumped x entry order (306 configurations), Cartesian integer metres; " + NOTE,
+         "TLA+/TLC (Surface.tla Mech|=Prop) + replay observing the switching depth of a composition"),
  "C12": ("model_checking",
          "Parse.tla applies every mutation of a catalogue (and, thorough, every pair) to valid base documents inside the specification, classifies each as must-reject / builds-or-throws / formatting-only, and records for each rejection whether the transcribed pipeline stops it with an always-on or a debug-only check (Mech |= Prop in a release build); every document, plus byte-level damage and formatting variants from a generic re-serialiser, is constructed and probed in the real library under AddressSanitizer and UndefinedBehaviorSanitizer.",
          "about 280 mutations x 2 base documents (+ pairs), about 900 byte-level / formatting documents; arbitrary byte strings that are not mutations of a valid document are not explored; uninitialised reads only as far as UBSan and their effects show them; " + NOTE.replace("-O2 -DNDEBUG", "-O1 -DNDEBUG + ASan/UBSan"),
